@@ -42,7 +42,7 @@ for _c in tr.CLASSES:
 OBLIGATIONS.update({"branch:power-lam": 200, "branch:yj-lam": 100,
                     "branch:manly-lam0": 20, "opt:mininu": 100, "opt:minilam": 100,
                     "opt:base": 50, "scalar-input": 50, "censored": 50,
-                    "via:get_transform": 100, "via:constructor": 100,
+                    "via:get_transform": 100, "via:constructor": 100, "via:values": 100,
                     "history": 50})
 
 
@@ -62,13 +62,16 @@ def run_config(ctx, case, npts=None):
     try:
         if via == "get_transform":
             t, actual = tr.make(name, ctor, par)
+        elif via == "values":
+            t, actual = tr.make_values(name, ctor, par)
         else:
             t, actual = tr.make_direct(name, ctor, par)
     except Exception as e:
         ctx.check("construct", False, f"{name}|construct-raises", case,
                   {"exc": repr(e)})
         return
-    ctx.tag("via:" + ("get_transform" if via == "get_transform" else "constructor"))
+    ctx.tag("via:" + {"get_transform": "get_transform", "values": "values"}
+            .get(via, "constructor"))
     ref = tr.Ref(name, ctor, actual)
     if not ref.in_region():
         ctx.extra["config-outside-stated-region"] += 1
@@ -260,7 +263,8 @@ def run(ctx):
             case = {"kind": "config", "class": name, "ctor": ctor, "params": par,
                     "history": hpar if it % 3 == 0 and hpar else None,
                     "tag": tag, "seed": int(rng.integers(0, 2 ** 31)),
-                    "via": ["get_transform", "constructor"][it % 2], "npts": npts}
+                    "via": ["get_transform", "constructor", "values"][it % 3],
+                    "npts": npts}
             run_config(ctx, case)
             if it0 == 0 and ctx.shard < 4 and name in ("BoxCox2", "YeoJohnson"):
                 ctx.sample({k: case[k] for k in ("class", "ctor", "params", "tag")})
